@@ -1282,10 +1282,26 @@ struct Exec {
             out.probes["c18.cmn_roundtrips"]++;
         }
     }
-    void c18_cepstra(DecState &s, int opi)
+    void c18_cepstra(DecState &s, int opi, int variant = -1)
     {
-        // cepstra of the whole clip through the decoder's own front end configuration (a second fe_t: the decoder's is busy)
-        fe_t *fe = fe_init(s.d->config);
+        // cepstra of the whole clip through the decoder's own front end configuration (a second fe_t: the decoder's is busy);
+        // variant >= 0: through another front-end configuration (the models force noise removal on and the rest to their
+        // training values; the property speaks of every front-end configuration), chosen by the bits of `variant`
+        fe_t *fe = nullptr;
+        if (variant < 0)
+            fe = fe_init(s.d->config);
+        else {
+            config_t *c = config_init(NULL);
+            config_set_bool(c, "remove_noise", (variant & 1) != 0);
+            config_set_bool(c, "remove_dc", (variant & 2) != 0);
+            config_set_bool(c, "logspec", (variant & 12) == 12);
+            config_set_str(c, "transform", (variant & 16) ? "dct" : "legacy");
+            config_set_int(c, "lifter", (variant & 32) ? 22 : 0);
+            config_set_bool(c, "dither", 0);
+            fe = fe_init(c);
+            config_free(c);
+            out.probes["c18.fe_variant"]++;
+        }
         if (!fe)
             return;
         int dim = fe_get_output_size(fe);
@@ -1326,7 +1342,9 @@ struct Exec {
         out.checks++;
         out.probes["c18.cepstral_values_checked"] += (int64_t)total * dim;
         if (bad_vals)
-            viol("C18", "features_finite", "cepstra", std::to_string(bad_vals) + " cepstral values are not finite", opi);
+            viol("C18", "features_finite", variant < 0 ? "cepstra" : "cepstra_other_fe_config",
+                 std::to_string(bad_vals) + " cepstral values are not finite" + (variant < 0 ? std::string() : " (front end with remove_noise=" + std::to_string(variant & 1) + " remove_dc=" +
+                     std::to_string((variant >> 1) & 1) + " logspec=" + std::to_string((variant & 12) == 12) + ")"), opi);
         ckd_free_2d(buf);
         fe_free(fe);
     }
@@ -1526,6 +1544,7 @@ struct Exec {
         }
         if (profile == "C18") {
             c18_cepstra(s, opi);
+            c18_cepstra(s, opi, (int)(fnv1a(std::to_string(s.clip.size()) + "/" + std::to_string(opi)) & 63));
             c18_features(s, opi);
             c18_scores(s, r, opi);
         }
